@@ -13,10 +13,12 @@ colouring.
 
 Modelling decisions
 * Legality is stated from the rules on (adj_matrix, colors, current_node_index), never from the
-  cached `state.action_mask`.  On the pinned tree the cached mask is computed from the colouring
-  BEFORE the current assignment (DESIGN.md section 5 #1), and `step` judges validity by that cached
-  mask; the same defect therefore shows as C04 mask-admits-illegal-move, C05/C09 (a rule-illegal
-  colour is not punished) and C06 monochromatic-edge.  Nothing is loosened for it.
+  cached `state.action_mask`.  On the originally pinned tree the cached mask was computed from the
+  colouring BEFORE the current assignment (DESIGN.md section 5 #1; fixed in /repo by "fix:
+  GraphColoring computes the next node's action mask from the updated colouring"), and `step` judges
+  validity by that cached mask; that defect shows as C04 mask-admits-illegal-move, C05
+  illegal-action-not-terminal / illegal-action-reward, C06 monochromatic-edge and C09
+  step-field-action_mask / step-termination / step-reward.  Nothing is loosened for it.
 * Docs do not promise an untouched state on an invalid action (the colour is written anyway); C05
   checks LAST and the -num_nodes reward only.
 * Both causes on one step (invalid colour on the last node): invalid takes precedence (docstring:
